@@ -824,12 +824,19 @@ class Interp:
 
     @staticmethod
     def _stores(st):
+        def root(x):
+            while isinstance(x, (ast.Subscript, ast.Attribute)):
+                x = x.value
+            return x.id if isinstance(x, ast.Name) else None
         out = set()
         for n_ in ast.walk(st):
             if isinstance(n_, ast.Name) and isinstance(n_.ctx, (ast.Store, ast.Del)): out.add(n_.id)
-            if isinstance(n_, ast.Call) and isinstance(n_.func, ast.Attribute) and isinstance(n_.func.value, ast.Name) and n_.func.attr in ('append', 'extend', 'update', 'insert', 'add', 'setdefault', 'pop'):
-                out.add(n_.func.value.id)
-            if isinstance(n_, (ast.Subscript, ast.Attribute)) and isinstance(n_.ctx, ast.Store) and isinstance(n_.value, ast.Name): out.add(n_.value.id)
+            if isinstance(n_, ast.Call) and isinstance(n_.func, ast.Attribute) and n_.func.attr in ('append', 'extend', 'update', 'insert', 'add', 'setdefault', 'pop', 'popitem', 'clear', 'remove', 'sort', 'reverse', 'discard', '__setitem__', '__delitem__'):
+                r_ = root(n_.func.value)          # registry[22].update(...) changes `registry`
+                if r_: out.add(r_)
+            if isinstance(n_, (ast.Subscript, ast.Attribute)) and isinstance(n_.ctx, (ast.Store, ast.Del)):
+                r_ = root(n_.value)
+                if r_: out.add(r_)
         return out
 
     def module_binding_count(self, mod, name):
